@@ -342,7 +342,10 @@ def bvp_system(chk):
     tolv = z3.Real("tol")
     maxn = z3.Int("max_nodes")
     import itertools
-    for with_tf, K, ends in [(w, k_, e) for w in (False, True) for k_ in (1, 2, 3) for e in itertools.product((0, 1), repeat=k_)]:
+    XSI = z3.Function("mesh_x_integer", z3.IntSort(), z3.IntSort())
+    combos = [(w, k_, e, False) for w in (False, True) for k_ in (1, 2, 3) for e in itertools.product((0, 1), repeat=k_)]
+    combos += [(True, 2, (0, 1), True), (False, 2, (0, 1), True)]          # the caller's mesh given as an integer array (np.arange)
+    for with_tf, K, ends, int_mesh in combos:
         if True:
             captured = {}
             ends = list(ends)                                    # every assignment of the K conditions to the two ends (concrete) ...
@@ -362,7 +365,7 @@ def bvp_system(chk):
                 tf, ufs = abstract_transform(eng_) if with_tf else (None, None)
                 fxm = I.Model("fx", lambda e, x: I.Arr(x.shape, lambda *i: Fx(T.zr(x.fn(*i))), "real"))
                 coeffs = [AS[k] for k in range(K + 1)]
-                xarr = I.Arr((Nm,), lambda i: XS(T.zi(i)), "real")
+                xarr = I.Arr((Nm,), lambda i: XSI(T.zi(i)), "int") if int_mesh else I.Arr((Nm,), lambda i: XS(T.zi(i)), "real")
                 guess = I.Arr((K, Nm), lambda k, i: GUESS(T.zi(k), T.zi(i)), "real")
                 bd = [[ends[j], ders[j], cvals[j]] for j in range(K)]
                 try:
@@ -383,7 +386,8 @@ def bvp_system(chk):
                                                  I.Arr((K,), lambda k: M.select_const(k, [lambda v=v: v for v in yb]), "real")])
                 return dict(out=[out.fn(k, 0) for k in range(K)], shape=out.shape, res=[res.fn(j) for j in range(K)], rshape=res.shape, mesh=captured["x"].fn(i1),
                             mshape=captured["x"].shape, y=captured["y"], kw=dict(captured["kw"]), ufs=ufs, t=t, yv=yv, ya=ya, yb=yb)
-            tag = f"solve_ode_bvp/{'transform' if with_tf else 'plain'}/K={K}/ends-{''.join(map(str, ends))}"
+            tag = f"solve_ode_bvp/{'transform' if with_tf else 'plain'}/K={K}/ends-{''.join(map(str, ends))}" + ("/integer-mesh" if int_mesh else "")
+            xs_at = (lambda i: z3.ToReal(XSI(i))) if int_mesh else (lambda i: XS(i))
             rep = {"what": "bvp", "K": K, "transform": with_tf}
             outs = chk.explore(tag, thunk, func=fq)
             rets = [o for o in outs if o.kind == "return"]
@@ -399,11 +403,11 @@ def bvp_system(chk):
                     bt = expected_b(K, [D1(xo), D2(xo), D3(xo)])
                     rhs = (Fx(xo) - sum(bt[k] * yv[k] for k in range(K))) / bt[K]
                     lead = bt[K]
-                    mesh_want = Tf(XS(i1))
+                    mesh_want = Tf(xs_at(i1))
                 else:
                     rhs = (Fx(t) - sum(AS[k] * yv[k] for k in range(K))) / AS[K]
                     lead = AS[K]
-                    mesh_want = XS(i1)
+                    mesh_want = xs_at(i1)
                 for k in range(K - 1):
                     chk.add(f"{tag}/post/system-row{k}-is-next-derivative{sfx}", hy, T.zr(v["out"][k]) == yv[k + 1], func=fq, meta={"replay": rep})
                 chk.add_identity(f"{tag}/post/system-last-row-is-explicit-ode{sfx}", T.zr(v["out"][K - 1]), rhs, hy + [lead != 0], func=fq, side=False, meta={"replay": rep})
